@@ -19,6 +19,16 @@ SetSort = z3.ArraySort(I, B)
 CARD = z3.Function("card", SetSort, I)
 
 
+def card_store_facts(st, t):
+    """L-CARD: cardinality of finite sets along a chain of single-element updates (instances of card(S + x), card(S - x))"""
+    while z3.is_store(t):
+        base, x, v = t.arg(0), t.arg(1), t.arg(2)
+        inb = z3.Select(base, x)
+        st.assume(CARD(t) == z3.If(v, z3.If(inb, CARD(base), CARD(base) + 1), z3.If(inb, CARD(base) - 1, CARD(base))))
+        st.assume(CARD(base) >= 0)
+        t = base
+
+
 def empty_set():
     return z3.K(I, z3.BoolVal(False))
 
@@ -161,6 +171,15 @@ class SymList:
         self.length = length  # SR or None (None: derived from the set when duplicate-free)
 
     owner = None  # (heap object, field) when this value was read from the heap: in-place mutation is written back
+    order = None  # identity of the element order (a hashable key); None: nothing known about the order
+
+    def _sorted(self, key, reverse):
+        """sorted(list): same elements, same multiplicities; the order is 'the sorted order of' the original one"""
+        if key is not None:
+            raise Unsupported("sorted(list, key=...)")
+        r = SymList(SymSet(self.s.arr), self.dupfree, self.length)
+        r.order = ("sorted", bool(reverse), self.order) if self.order is not None else None
+        return r
 
     def _contains(self, x):
         return self.s._contains(x)
@@ -177,7 +196,9 @@ class SymList:
         return SymSet(self.s.arr)
 
     def _tolist(self):
-        return SymList(SymSet(self.s.arr), self.dupfree, self.length)
+        r = SymList(SymSet(self.s.arr), self.dupfree, self.length)
+        r.order = self.order
+        return r
 
     def _len(self):
         st = cur()
@@ -214,6 +235,21 @@ class SymList:
         from .aseshim import SymAtoms
 
         return SubAtoms(atoms, self)
+
+
+def same_order(a, b):
+    """z3 Bool: the two lists enumerate their (equal) elements in the same order. Equal order keys: yes; a list against its own sorted copy:
+    exactly when the list is sorted (an unconstrained fact about the list); otherwise unknown (a fresh Bool)."""
+    st = cur()
+    ka, kb = getattr(a, "order", None), getattr(b, "order", None)
+    if ka is not None and ka == kb:
+        return z3.BoolVal(True)
+    for x, y in ((ka, kb), (kb, ka)):
+        if isinstance(x, tuple) and x and x[0] == "sorted" and x[2] is not None and x[2] == y:
+            import hashlib
+            return z3.Bool("is_sorted_%s!%s" % ("desc" if x[1] else "asc", hashlib.sha1(repr(y).encode()).hexdigest()[:10]))
+    st.n += 1
+    return z3.Bool("same_order?%d" % st.n)
 
 
 class IndexArray:
@@ -306,6 +342,8 @@ class HObj:
             r = SymList(SymSet(z3.Select(A("set", SetSort), self.id)), mkbool(z3.Select(A("dupfree", B), self.id)), None)
             if hp is None:
                 r.owner = (self, field)
+            # two reads of the same field of the same object with no write in between see the same order
+            r.order = ("field", c, field, z3.simplify(self.id).sexpr(), A("set", SetSort).sexpr(), A("dupfree", B).sexpr())
             return r
         if fd.kind == "intset":
             return SymSet(z3.Select(A("set", SetSort), self.id))
